@@ -159,6 +159,34 @@ class ContractMixin:
                         terms.append(self.eval_clause(lam.body, s, frame=fr))
                 return k(mk_bool(z3.And(*terms) if terms else z3.BoolVal(True)), s)
             return self.ev(e.args[0], st, with_cls)
+        if name == "only_new_changed":
+            # for objects that existed at old(): the listed fields are unchanged (objects created by the call are free)
+            terms = []
+            x = z3.Const("x!onc", RefS)
+            i = z3.Const("i!onc", z3.IntSort())
+            for a in e.args:
+                key = a.value
+                hks = self.heap_keys_for(key)
+                names = [hk for hk, _s in hks]
+                for hk, sort in hks:
+                    cur = st.harr(hk, sort)
+                    prev = st.heap_override
+                    st.heap_override = st.old
+                    try:
+                        old = st.harr(hk, sort)
+                    finally:
+                        st.heap_override = prev
+                    if hk.endswith("#a"):
+                        nk = hk[:-2] + "#n"
+                        ncur = st.harr(nk, z3.ArraySort(RefS, z3.IntSort()))
+                        body = z3.ForAll([i], z3.Implies(z3.And(0 <= i, i < z3.Select(ncur, x)),
+                                                         z3.Select(z3.Select(cur, x), i) == z3.Select(z3.Select(old, x), i)))
+                    else:
+                        body = z3.Select(cur, x) == z3.Select(old, x)
+                    decl = key.split(".")[0]
+                    terms.append(z3.ForAll([x], z3.Implies(z3.And(x != NULL, birth(x) <= st.old.bound,
+                                                                  subclass(cls_of(x), cls_const(decl))), body)))
+            return k(mk_bool(z3.And(*terms)), st)
         if name == "at_loop_entry":
             return self.ev_in_snap(e.args[0], st, st.labels.get("loop_entry") or st.old, k)
         if name in ("unchanged", "unchanged_in_loop"):
@@ -609,6 +637,8 @@ class ContractMixin:
     def apply_contract(self, c, info, bound, st, k, direct=False):
         """modular call: prove requires, havoc frame, assume ensures (one successor per declared outcome)"""
         self.used_contracts.add(c.fqn)
+        if c.assumed or c.fqn.startswith("abstract:"):
+            self.assumptions_used.add("assumed contract (not verified against a body): %s%s" % (c.fqn, (" -- " + c.note) if c.note else ""))
         fr = self.contract_frame(c, info, bound, st)
         st.note("call " + info.qualname)
         for i, r in enumerate(c.requires):
@@ -729,6 +759,11 @@ class ContractMixin:
                                 s.inv_over[(cn2, iname2)] = post
                             elif (cn2, iname2) not in s.inv_over:
                                 s.inv_over[(cn2, iname2)] = s.inv_base
+            # the callee left its arguments in a consistent state: make their invariants available to the caller
+            if not c.pure and not c.no_invariants and s.inv_base is not None:
+                for av in fr.locals.values():
+                    if isinstance(av, Val) and av.ty[0] == "ref" and av.ty[1] is not None:
+                        self.touch(s, av, guard=True)
             # --- outcome
             sfr = fr.copy()
             saved_old = s.old
